@@ -12,6 +12,7 @@ import copy
 import shutil
 import statistics
 import traceback
+import sys
 from fractions import Fraction
 
 from esrally import config, metrics, track
@@ -35,7 +36,7 @@ ASSUMPTIONS = [
 ]
 REQUIRED_CLAUSES = [
     "results-computed", "task-listed", "percentile-reference", "percentile-monotone", "percentile-bounds", "p100-max", "p50-median", "mean", "throughput-stats",
-    "warmup-excluded", "no-normal-no-stats", "percentile-set-by-count", "error-rate", "global-sum", "global-median", "per-shard-stats",
+    "warmup-excluded", "no-normal-no-stats", "percentile-set-by-count", "report-lookup-percentile", "error-rate", "global-sum", "global-median", "per-shard-stats",
     "section-passthrough", "store-roundtrip-dict", "store-roundtrip-flat", "store-roundtrip-list", "store-roundtrip-reader-view",
 ]
 _BRACKETS = ["n=1", "n<10", "n<100", "n<1000", "n<10000", "n>=10000"]
@@ -274,6 +275,27 @@ def stats_problems(ctx, spec, ti, name, block, seen_sets):
     if any(p is None or p < 0 or p > 100 for p, _ in keys):
         bad("percentile-set-by-count", f"unreadable percentile key in {list(kset)}", reported=list(kset))
         return probs
+    # The summary and comparison reports label their lines "<p>th percentile ..." and fetch the value with the real
+    # metrics.encode_float_key(p) for every p rally knows: what the user reads for p must be the p-th percentile, every stored
+    # key must be read by exactly one label, and no two labels may read the same key.
+    ctx.clause("report-lookup-percentile")
+    looked_up = {}
+    for p_label in metrics.percentiles_for_sample_size(sys.maxsize):
+        k_label = metrics.encode_float_key(p_label)
+        v_label = (block or {}).get(k_label)
+        if v_label is None:
+            continue
+        if k_label in looked_up:
+            bad("report-lookup-percentile", f"the report lines for p{looked_up[k_label]} and p{p_label} both read the stored key {k_label!r}", key=k_label)
+            continue
+        looked_up[k_label] = p_label
+        ref_l, scale_l = ref_percentile(sv, Fraction(str(p_label)))
+        if not close_to(v_label, ref_l, scale_l):
+            bad("report-lookup-percentile", f"the report line 'p{p_label}' reads {v_label!r} (key {k_label!r}) but the {p_label}th percentile of the {n} normal samples is {float(ref_l)!r}",
+                reported=v_label, expected=float(ref_l), key=k_label)
+    orphan = [k for _, k in keys if k not in looked_up]
+    if orphan:
+        bad("report-lookup-percentile", f"stored percentile keys {orphan} are read by no report line", reported=orphan)
     lo, hi = fr(sv[0]), fr(sv[-1])
     scale_all = max(abs(lo), abs(hi))
     last = None
